@@ -76,7 +76,18 @@ func ObserveWith(seg segment.Segment, storedSeg func(d uint64) segment.Segment) 
 		if err != nil {
 			return nil, fmt.Errorf("stats %q: %w", f, err)
 		}
-		o.Stats[f] = model.Stats{Total: cs.TotalDocumentCount(), Docs: cs.DocumentCount(), SumTF: cs.SumTotalTermFrequency()}
+		first := model.Stats{Total: cs.TotalDocumentCount(), Docs: cs.DocumentCount(), SumTF: cs.SumTotalTermFrequency()}
+		// the returned object belongs to the caller, who folds other segments' statistics into it with
+		// Merge: doing so must not reach anything the segment answers later questions from
+		cs.Merge(cs)
+		cs2, err := seg.CollectionStats(f)
+		if err != nil {
+			return nil, fmt.Errorf("stats %q (second call): %w", f, err)
+		}
+		o.Stats[f] = model.Stats{Total: cs2.TotalDocumentCount(), Docs: cs2.DocumentCount(), SumTF: cs2.SumTotalTermFrequency()}
+		if o.Stats[f] != first {
+			return nil, fmt.Errorf("stats %q: asked again after the caller merged into the first answer: %v, first answer %v", f, o.Stats[f], first)
+		}
 	}
 	dvr, err := seg.DocumentValueReader(o.Fields)
 	if err != nil {
